@@ -614,6 +614,8 @@ def main():
         "violations": len(confirmed),
     }
     evdir = os.path.join(VERIF, "evidence") if not TAG else os.path.join(WORK, "evidence" + TAG)
+    if os.environ.get("VERIF_EVIDENCE_DIR"):  # development runs that must not touch the committed evidence
+        evdir = os.environ["VERIF_EVIDENCE_DIR"]
     os.makedirs(evdir, exist_ok=True)
     json.dump(ev, open(os.path.join(evdir, prop + ".json"), "w"), indent=1)
 
